@@ -47,7 +47,7 @@ def build(tier, seed):
                 continue
             hn = "c04_formula_%s_d%d" % (n, d)
             dom = "tiny" if (base == "Aminstar" and d >= 3) else "small"   # A-Min* at degree 3: symbolic argmin + float miter (> 300 s on s in [-127,127])
-            items.append((Harness(hn, {"type": n, "degree": d, "input": "%d messages on the exact domain s/8, s in %s" % (d, "[-7,7]" if dom == "tiny" else "[-127,127]"),
+            items.append((Harness(hn, {"type": n, "degree": d, "input": "%d messages on the exact domain s/8, s in %s" % (d, "[-7,7] plus -0.0" if dom == "tiny" else "[-127,127]"),
                                         "oracle": "documented formula of the %s rule evaluated with the same SURROGATE elementary functions (all operations exact on the domain, so algebraically equivalent implementations agree bit for bit)" % base},
                                   4.0 + d * d, stubs="SURROGATE", neighbourhood=True),
                           "crate::c04_formula_f!(%s, %s, %s, crate::macros::any_%s_%s, %d, %s, %d, %d);" % (hn, n, f, f, dom, fam, clamp, d, d + 3)))
